@@ -138,7 +138,18 @@ class Recogniser:
             numeric = False
         elif k == LB:
             elems = self.collection(LB, RB)
-            v = ("set", tuple(sorted(set(elems), key=repr)))
+            # a Python set identifies 1, 1.0 and True (0, 0.0 and False) and
+            # keeps the one that came first - that is the decoded type's
+            # doing, not the loader's
+            kept, seen = [], set()
+            for e in elems:
+                key = e
+                if e[0] in ("int", "bool", "float"):
+                    key = ("num", float(e[1]))
+                if key not in seen:
+                    seen.add(key)
+                    kept.append(e)
+            v = ("set", tuple(sorted(kept, key=repr)))
             numeric = False
         else:
             # (a keyword or delimiter can never be an element: even the
